@@ -14,8 +14,8 @@ EXPLANATION = (
 )
 BOUNDS = {
     "quick": "block unit FREE(3)(+newline) js-default; verbatim CTX scaffolds (fence/code/html/hr/heading/list in containers) with 2 free "
-             "characters; code spans: backtick strings of length 1-2 around 3 free non-backtick characters",
-    "thorough": "FREE(4), CTX x {js-default, commonmark}, code spans with 4 free characters",
+             "characters; code spans: backtick strings of length 1-2 around 2 free non-backtick characters",
+    "thorough": "FREE(4), CTX x {js-default, commonmark}, code spans with 3 free characters",
 }
 OUTSIDE = "content lines longer than the free segment; tabs deeper than one container level inside verbatim blocks beyond the scaffolds"
 ASSUMPTIONS = ["CR/NUL-free sources (normalised input)", "code-span jobs assume the free characters are not backticks (the scaffold fixes the span)"]
@@ -122,7 +122,7 @@ def jobs(tier, seed):
                              "params": {"cfg": cfg, "scaffold": [prefix, {"v": "a"}, {"v": "b"}] + ([suffix] if suffix else []),
                                         "spec": spec2, "name": name},
                              "weight": 4, "cpu_cap": 900, "wall_cap": 1500})
-    ks = 3 if tier == "quick" else 4
+    ks = 2 if tier == "quick" else 3
     for ticks in (1, 2):
         for pre, post in (("", ""), ("a ", " b")):
             jobs.append({"harness": "codespan", "params": {"cfg": JS, "k": ks, "ticks": ticks, "pre": pre, "post": post},
